@@ -46,6 +46,7 @@ def render_line(toks, dialect="z80", r=None, keepcase=False):
     opi = first_sp + 1 if first_sp + 1 < len(toks) else None
     opname = toks[opi].upper() if opi is not None else ""
     inq = False
+    keepcase = keepcase or opname in ("INCLUDE", "BINCLUDE")      # file names are spelled as on disk
     for i, t in enumerate(toks):
         if t == SP:
             nsp += 1
@@ -64,6 +65,8 @@ def render_line(toks, dialect="z80", r=None, keepcase=False):
             out.append('"')
         elif i == opi and t in ("DB", "DW"):
             out.append(_case(d[t], r))
+        elif i == opi:
+            out.append(_case(t, r))
         elif inq or keepcase:
             out.append(t)
         elif "." in t:
@@ -112,20 +115,30 @@ def render_file(lines, dialect="z80", r=None, preamble=True):
     return "\n".join(txt) + "\n"
 
 
-_TOK = re.compile(r"[A-Za-z0-9]+|\s+|.", re.S)
+_TOK = re.compile(r"__LABEL__|[A-Za-z0-9]+|\s+|.", re.S)
 
 
 def tokenize(text):
-    """text delivered by GetNextLine -> token list of the model (words upper-cased, white space runs = SP)"""
+    """text delivered by GetNextLine -> token list of the model (words upper-cased, white space runs = SP,
+    the characters of a double-quoted string kept apart, control bytes = the stored parameter tokens)"""
     toks = []
+    inq = False
     for m in _TOK.finditer(text):
         s = m.group(0)
-        if s.isspace():
+        if s == '"':
+            inq = not inq
+            toks.append(s)
+        elif s.isspace():
             toks.append(SP)
         elif s[0].isalnum():
-            toks.append(s.upper())
-        elif ord(s) < 32:
-            toks.append("^%d" % ord(s))
+            if inq:
+                toks += list(s.upper())
+            else:
+                toks.append(s.upper())
+        elif s == "__LABEL__":
+            toks.append(s)
+        elif ord(s[0]) < 32:
+            toks.append("^%d" % ord(s[0]))
         else:
             toks.append(s)
     return toks
